@@ -357,6 +357,11 @@ func (sc *Scheduler) Signal(
 	if !sc.isCanceled() {
 		sc.setCanceled()
 	}
+	// No node starts a process from now on: a worker may already be past its
+	// own cancel check, with or without an executor in hand.
+	for _, node := range g.Nodes() {
+		node.requestStop()
+	}
 	verifPoint("signal.flagged", nil)
 	for _, node := range g.Nodes() {
 		verifPoint("signal.node", node)
